@@ -31,6 +31,12 @@
 
 static struct evrrul_s STRM;
 
+#if defined VERIF_CBMC
+/* UTC streams carry zone 0, for which src/tzob.c finds no zone file and answers offset 0
+ * (the native replay links the real one) */
+int echs_tzob_offs(echs_tzob_t z, echs_instant_t i, int x) { (void)z; (void)i; (void)x; return 0; }
+#endif
+
 /* echs_instant_sort() (WikiSort) is C20's subject, where it is shown to sort every array of
  * up to 5 (thorough: 8) instants; here refill() hands it at most GRP_CCH_OFF-1 <= 3 of them,
  * and it is cut (goto-instrument --replace-calls) for this insertion sort under the same
